@@ -139,7 +139,172 @@ pub fn gprs_strategy() -> impl Strategy<Value = Gprs> {
     })
 }
 
+/// Live judge: completeness, register accuracy, snapshot consistency.
+pub fn judge_live(c: &crate::props::fid::FCase) -> Verdict {
+    use crate::props::fid::*;
+    use crate::vcore::target::*;
+    let o = match run_case(c) {
+        Ok(o) => o,
+        Err(e) => return run_err_verdict(e),
+    };
+    macro_rules! bad {
+        ($sig:expr, $($arg:tt)*) => { return Verdict::viol(format!("C04:{}", $sig), format!($($arg)*)) };
+    }
+    let Some(threads) = o.d.threads.as_ref() else { bad!("no-thread-list", "thread list stream missing or malformed: {:?}", o.d.problems.first()) };
+    let mut seen = std::collections::BTreeMap::new();
+    for t in threads {
+        *seen.entry(t.tid as i32).or_insert(0) += 1;
+    }
+    if let Some((tid, n)) = seen.iter().find(|(_, n)| **n > 1) {
+        bad!("duplicate-thread", "thread {tid} listed {n} times");
+    }
+    // every thread that exists throughout and can be attached must be listed
+    let mut must: Vec<i32> = vec![o.pid];
+    for (_, tid, k) in &o.case_threads {
+        if *k != K_NULLSP && !o.gone.contains(tid) {
+            must.push(*tid);
+        }
+    }
+    for tid in &must {
+        if !seen.contains_key(tid) {
+            bad!("thread-missing", "thread {tid} (kind {:?}) exists throughout the dump but is not listed; listed {:?}", o.kind_of(*tid), seen.keys().collect::<Vec<_>>());
+        }
+    }
+    for tid in seen.keys() {
+        if !must.contains(tid) && !o.gone.contains(tid) && o.kind_of(*tid) != Some(K_NULLSP) {
+            bad!("foreign-thread", "listed thread {tid} is not a thread of the target");
+        }
+    }
+    // vanished threads: listed with a valid context, or omitted and reported
+    let mut flat = std::collections::BTreeMap::new();
+    crate::props::c11::flatten(&o.soft_errors, "", &mut flat);
+    for tid in &o.gone {
+        if seen.contains_key(tid) {
+            let t = threads.iter().find(|t| t.tid as i32 == *tid).unwrap();
+            if o.ctx_of(t.ctx).is_none() {
+                bad!("vanished-thread-invalid-context", "thread {tid} exited during the dump and is listed without a valid context");
+            }
+        } else if !flat.keys().any(|k| k.ends_with(&format!(":{tid}"))) {
+            bad!("vanished-thread-not-reported", "thread {tid} exited before attach, is omitted, and no soft error names it: {:?}", flat);
+        }
+    }
+    let mut classes = vec![];
+    let mut checked_regs = 0;
+    for t in threads {
+        let tid = t.tid as i32;
+        let Some(ctx) = o.ctx_of(t.ctx) else { bad!("context-missing", "thread {tid} has no decodable context") };
+        // the crash-context thread carries the supplied context (C05's subject)
+        if o.crash.is_some() && tid == o.blamed {
+            continue;
+        }
+        let kind = o.kind_of(tid);
+        if ctx.cs != 0x33 || ctx.ss != 0x2b {
+            bad!("reg:segment", "thread {tid}: cs {:#x} ss {:#x}", ctx.cs, ctx.ss);
+        }
+        let Some((regs, fx)) = o.planned_regs.get(&tid) else { continue };
+        match kind {
+            Some(K_PARKED) => {
+                for (i, name) in crate::vcore::md::GPR_NAMES.iter().enumerate() {
+                    if matches!(*name, "rax" | "rcx" | "r11" | "rsp") {
+                        continue;
+                    }
+                    if ctx.gpr[i] != regs[i] {
+                        bad!(format!("reg:{name}"), "parked thread {tid}: {name} = {:#x}, the thread holds {:#x}", ctx.gpr[i], regs[i]);
+                    }
+                }
+                if ctx.gpr[4] != o.planned_sp[&tid] {
+                    bad!("reg:rsp", "parked thread {tid}: rsp {:#x} expected {:#x}", ctx.gpr[4], o.planned_sp[&tid]);
+                }
+                let after_syscall = o.syms["park_syscall_insn"] + 2;
+                if ctx.rip != after_syscall || ctx.gpr[1] != ctx.rip {
+                    bad!("reg:rip", "parked thread {tid}: rip {:#x} rcx {:#x}, expected {:#x}", ctx.rip, ctx.gpr[1], after_syscall);
+                }
+                checked_regs += 1;
+            }
+            Some(K_SPINNER) => {
+                let aux = o.spinner_aux[&tid];
+                for (i, name) in crate::vcore::md::GPR_NAMES.iter().enumerate() {
+                    let want = match *name {
+                        "rsp" => o.planned_sp[&tid],
+                        "rbx" => aux,
+                        "r12" => continue,
+                        _ => regs[i],
+                    };
+                    if ctx.gpr[i] != want {
+                        bad!(format!("reg:{name}"), "spinning thread {tid}: {name} = {:#x}, the thread holds {:#x}", ctx.gpr[i], want);
+                    }
+                }
+                if ctx.rip < o.syms["spin_code_loop"] || ctx.rip >= o.syms["spin_code_end"] {
+                    bad!("reg:rip", "spinning thread {tid}: rip {:#x} outside its loop", ctx.rip);
+                }
+                let n = ctx.gpr[12];
+                if n < o.spinner_start[&tid] {
+                    bad!("reg:r12", "spinner counter {n} below its start value");
+                }
+                // snapshot consistency: stack slot [rsp+8] and the app word, as captured
+                let sp = ctx.gpr[4];
+                if t.stack.size > 0 && sp + 16 <= t.stack_start + t.stack.size as u64 && sp >= t.stack_start {
+                    let off = (sp + 8 - t.stack_start) as usize;
+                    let slot = u64::from_le_bytes(o.bytes(t.stack)[off..off + 8].try_into().unwrap());
+                    if !(slot == n || slot + 1 == n) {
+                        bad!("snapshot:stack-slot", "thread {tid}: register counter {n} but captured stack slot {slot}: the thread ran between register and stack capture");
+                    }
+                    if let Some(mem) = o.d.memory.as_ref().and_then(|m| m.iter().find(|m| m.start <= aux && aux + 8 <= m.start + m.loc.size as u64)) {
+                        let off = (aux - mem.start) as usize;
+                        let word = u64::from_le_bytes(o.bytes(mem.loc)[off..off + 8].try_into().unwrap());
+                        if !(word == n || word + 1 == n) || word > slot {
+                            bad!("snapshot:app-word", "thread {tid}: register counter {n}, stack slot {slot}, captured app word {word}: not a single instant");
+                        }
+                        classes.push("snapshot-triple-checked".to_string());
+                    }
+                }
+                checked_regs += 1;
+            }
+            _ => continue,
+        }
+        // float state of parked / spinning threads
+        let want = crate::vcore::world::fpstate_of_fx(fx);
+        let f = crate::vcore::md::FloatSave(&ctx.float_save);
+        if f.control_word() != want.cwd || f.tag_word() != want.ftw as u8 || f.mx_csr() != want.mxcsr {
+            bad!("reg:fp-control", "thread {tid}: cwd {:#x} ftw {:#x} mxcsr {:#x}", f.control_word(), f.tag_word(), f.mx_csr());
+        }
+        for r in 0..8 {
+            if f.float_registers()[16 * r..16 * r + 10] != fx[32 + 16 * r..32 + 16 * r + 10] {
+                bad!(format!("reg:st{r}"), "thread {tid}: st{r} differs");
+            }
+        }
+        if f.xmm_registers() != &fx[160..416] {
+            let r = (0..16).find(|r| f.xmm_registers()[16 * r..16 * r + 16] != fx[160 + 16 * r..176 + 16 * r]).unwrap();
+            bad!(format!("reg:xmm{r}"), "thread {tid}: xmm{r} differs");
+        }
+    }
+    if !o.gone.is_empty() {
+        classes.push("thread-exited-before-attach".into());
+    }
+    if o.case_threads.iter().any(|(_, _, k)| *k == K_NULLSP) {
+        classes.push("null-sp-thread".into());
+    }
+    if o.case_threads.iter().any(|(_, _, k)| *k == K_SPINNER) {
+        classes.push("spinner".into());
+    }
+    crate::fw::count("thread-contexts-compared", checked_regs);
+    let nt = threads.len() >= 2 && !classes.is_empty();
+    Verdict::pass_c(if nt { Some(fp_json(c)) } else { None }, classes)
+}
+
 pub fn run(ctx: &mut LaneCtx) {
+    ctx.assume("live part: ground truth = sentinel registers each target thread loads before blocking (parked: raw pause syscall, rax/rcx/r11 are syscall-clobbered and excluded; spinner: pure user-space loop, all GPRs compared); x87 registers compared on their 10 significant bytes; fop/fip/fdp are CPU dependent and not compared; threads can only exit between enumeration and attach with the StopProcess fail point on");
+    ctx.run_sub(
+        SubSpec {
+            name: "live-threads",
+            cases: (320, 30_000),
+            rule: "generated targets (main + 1..63 threads: parked with sentinel registers, spinners with a register/stack/app-memory counter triple, sleepers, null-SP helpers, exiters cued at the threads-enumerated hook) dumped by the real writer; oracle = set of listed ids, per-register comparison with the sentinels, counter triple within one step; non-trivial = >=2 threads and a spinner, null-SP thread or vanished thread; distinct = hash of case",
+            strategy: crate::props::fid::case_strategy(if ctx.tier == Tier::Quick { 20 } else { 64 }, 1).boxed(),
+            max_shrink_iters: 150,
+            log_current: true,
+        },
+        judge_live,
+    );
     ctx.assume("pure part: register -> context mapping judged against a hand-written table (16 GPRs, rip, eflags low 32, 6 segment selectors low 16, dr0-3/6/7, x87/SSE state as 16-byte lanes, context flags must include CONTROL|INTEGER|SEGMENTS|FLOATING_POINT)");
     ctx.run_sub(
         SubSpec {
@@ -159,6 +324,7 @@ pub fn run(ctx: &mut LaneCtx) {
 pub fn replay(sub: &str, case: &Value) -> Verdict {
     match sub {
         "pure-regs" => replay_case::<RegCase>(case, check_regs),
+        "live-threads" => replay_case::<crate::props::fid::FCase>(case, judge_live),
         _ => Verdict::Inconclusive(format!("unknown sub {sub}")),
     }
 }
